@@ -75,6 +75,58 @@ struct Shared {
     calls: AtomicUsize,
     /// the wrapped sink's flush fails as well (a dead connection)
     flush_fails: bool,
+    /// which error an 'e' outcome produces: None = ErrorKind::Other with an identifiable payload,
+    /// Some(n) with n < 1000 = the n-th ErrorKind of the table, n >= 1000 = raw OS error n - 1000
+    err_code: Option<usize>,
+}
+
+/// Every stable `io::ErrorKind`.
+pub const ALL_KINDS: [io::ErrorKind; 40] = [
+    io::ErrorKind::NotFound,
+    io::ErrorKind::PermissionDenied,
+    io::ErrorKind::ConnectionRefused,
+    io::ErrorKind::ConnectionReset,
+    io::ErrorKind::HostUnreachable,
+    io::ErrorKind::NetworkUnreachable,
+    io::ErrorKind::ConnectionAborted,
+    io::ErrorKind::NotConnected,
+    io::ErrorKind::AddrInUse,
+    io::ErrorKind::AddrNotAvailable,
+    io::ErrorKind::NetworkDown,
+    io::ErrorKind::BrokenPipe,
+    io::ErrorKind::AlreadyExists,
+    io::ErrorKind::WouldBlock,
+    io::ErrorKind::NotADirectory,
+    io::ErrorKind::IsADirectory,
+    io::ErrorKind::DirectoryNotEmpty,
+    io::ErrorKind::ReadOnlyFilesystem,
+    io::ErrorKind::StaleNetworkFileHandle,
+    io::ErrorKind::InvalidInput,
+    io::ErrorKind::InvalidData,
+    io::ErrorKind::TimedOut,
+    io::ErrorKind::WriteZero,
+    io::ErrorKind::StorageFull,
+    io::ErrorKind::NotSeekable,
+    io::ErrorKind::QuotaExceeded,
+    io::ErrorKind::FileTooLarge,
+    io::ErrorKind::ResourceBusy,
+    io::ErrorKind::ExecutableFileBusy,
+    io::ErrorKind::Deadlock,
+    io::ErrorKind::CrossesDevices,
+    io::ErrorKind::TooManyLinks,
+    io::ErrorKind::InvalidFilename,
+    io::ErrorKind::ArgumentListTooLong,
+    io::ErrorKind::Interrupted,
+    io::ErrorKind::Unsupported,
+    io::ErrorKind::UnexpectedEof,
+    io::ErrorKind::OutOfMemory,
+    io::ErrorKind::Other,
+    io::ErrorKind::ConnectionRefused,
+];
+
+/// Identity of an error for the log: the injected payload id, else 1_000_000 + raw OS error.
+pub fn error_identity(e: &io::Error) -> Option<usize> {
+    crate::writer::injected_id(e).or(e.raw_os_error().map(|n| 1_000_000 + n as usize))
 }
 
 impl Shared {
@@ -100,8 +152,21 @@ impl MetricSink for ScriptedSink {
                     b'w' => io::ErrorKind::WouldBlock,
                     _ => io::ErrorKind::Other,
                 };
-                self.sh.push(Log::SinkErr(idx, idx + 1));
-                Err(io::Error::new(kind, Injected(idx + 1)))
+                match (self.sh.script[idx], self.sh.err_code) {
+                    (b'e', Some(n)) if n >= 1000 => {
+                        let errno = (n - 1000) as i32;
+                        self.sh.push(Log::SinkErr(idx, 1_000_000 + errno as usize));
+                        Err(io::Error::from_raw_os_error(errno))
+                    }
+                    (b'e', Some(n)) => {
+                        self.sh.push(Log::SinkErr(idx, idx + 1));
+                        Err(io::Error::new(ALL_KINDS[n % ALL_KINDS.len()], Injected(idx + 1)))
+                    }
+                    _ => {
+                        self.sh.push(Log::SinkErr(idx, idx + 1));
+                        Err(io::Error::new(kind, Injected(idx + 1)))
+                    }
+                }
             }
             b'p' => {
                 self.sh.push(Log::SinkPanic(idx));
@@ -152,6 +217,9 @@ pub struct QueueScn {
     pub prods: Vec<String>,
     pub samples: usize,
     pub flush_fails: bool,
+    pub err_code: Option<usize>,
+    /// pad every metric to at least this many bytes
+    pub big: usize,
     pub text: String,
 }
 
@@ -169,6 +237,8 @@ pub fn scenario(spec: &crate::Spec) -> QueueScn {
         prods: spec.kv.get("prod").map(|p| p.split(',').map(|s| s.to_string()).collect()).unwrap_or_default(),
         samples: spec.usize("sampler", 0),
         flush_fails: spec.usize("ff", 0) == 1,
+        err_code: spec.opt_usize("kind").or(spec.opt_usize("errno").map(|n| 1000 + n)),
+        big: spec.usize("big", 0),
         text: spec.raw.clone(),
     }
 }
@@ -240,7 +310,7 @@ impl Scenario for QueueScn {
     }
 
     fn max_steps(&self) -> usize {
-        20000
+        20000 + 40 * (self.prog.len() + self.prods.iter().map(|p| p.len()).sum::<usize>())
     }
 
     fn make(&self) -> (Box<dyn FnOnce() + Send + 'static>, Box<dyn FnOnce(&EndState) -> Verdict + Send + 'static>) {
@@ -253,6 +323,7 @@ impl Scenario for QueueScn {
             script: self.script.as_bytes().to_vec(),
             calls: AtomicUsize::new(0),
             flush_fails: self.flush_fails,
+            err_code: self.err_code,
         });
         let scn = self.clone();
         let sh2 = sh.clone();
@@ -263,7 +334,7 @@ impl Scenario for QueueScn {
             let hsh = sh.clone();
             let handler = move |e: io::Error| {
                 let tid = rt::me().unwrap_or(usize::MAX);
-                hsh.push(Log::Handler(crate::writer::injected_id(&e), tid));
+                hsh.push(Log::Handler(error_identity(&e), tid));
             };
             if scn.handler && scn.handler_first {
                 b = b.with_error_handler(handler.clone());
@@ -290,7 +361,10 @@ impl Scenario for QueueScn {
                     b'E' => {
                         let h = arg.unwrap_or(0);
                         if let Some(Some(q)) = handles.get(h) {
-                            let m = format!("m{}{}", n_emit, "x".repeat(n_emit % 3));
+                            let mut m = format!("m{}{}", n_emit, "x".repeat(n_emit % 3));
+                            if m.len() < scn.big {
+                                m.push_str(&"_".repeat(scn.big - m.len()));
+                            }
                             n_emit += 1;
                             emit_on(&sh, q, 0, &m);
                         }
@@ -412,6 +486,15 @@ fn br(out: &mut Vec<Breach>, props: &[&'static str], sig: &str, what: String) {
     });
 }
 
+fn brief(v: Vec<String>) -> String {
+    let v: Vec<String> = v.into_iter().map(|m| if m.len() > 24 { format!("{}..({}B)", &m[..12], m.len()) } else { m }).collect();
+    if v.len() > 16 {
+        format!("[{} .. {} ({} items)]", v[..6].join(","), v[v.len() - 4..].join(","), v.len())
+    } else {
+        format!("{:?}", v)
+    }
+}
+
 fn judge(scn: &QueueScn, end: &EndState, sh: &Shared) -> Verdict {
     let log = sh.log.lock().unwrap().clone();
     let mut out: Vec<Breach> = vec![];
@@ -527,11 +610,15 @@ fn judge(scn: &QueueScn, end: &EndState, sh: &Shared) -> Verdict {
             if n_panics_scripted > 0 {
                 props.push("C11");
             }
-            br(&mut out, &props, "delivered-differs-from-accepted", format!("accepted {:?} but the wrapped sink was handed {:?} (never delivered: {:?}, delivered twice: {:?}, not accepted: {:?})", acc, del, missing, dup, foreign));
+            br(&mut out, &props, "delivered-differs-from-accepted", format!("accepted {} but the wrapped sink was handed {} (never delivered: {}, delivered twice: {}, not accepted: {})", brief(acc.clone()), brief(del.clone()), brief(missing.iter().map(|s| s.to_string()).collect()), brief(dup.iter().map(|s| s.to_string()).collect()), brief(foreign.iter().map(|s| s.to_string()).collect())));
         } else {
             // order: per-thread program order, and real-time order between threads
-            let pos = |m: &String| del.iter().position(|x| x == m).unwrap();
-            for t in 0..100 {
+            let posmap: std::collections::HashMap<&String, usize> = del.iter().enumerate().map(|(i, m)| (m, i)).collect();
+            let pos = |m: &String| posmap.get(m).copied().unwrap_or(usize::MAX);
+            let mut threads: Vec<usize> = accepted.iter().map(|a| a.0).collect();
+            threads.sort();
+            threads.dedup();
+            for t in threads {
                 let mine: Vec<&String> = accepted.iter().filter(|a| a.0 == t).map(|a| &a.1).collect();
                 for w in mine.windows(2) {
                     if pos(w[0]) > pos(w[1]) {
@@ -539,26 +626,30 @@ fn judge(scn: &QueueScn, end: &EndState, sh: &Shared) -> Verdict {
                         if n_panics_scripted > 0 {
                             props.push("C11");
                         }
-                        br(&mut out, &props, "producer-order-broken", format!("thread {} emitted {} before {} but the wrapped sink got them in the opposite order ({:?})", t, w[0], w[1], del));
+                        br(&mut out, &props, "producer-order-broken", format!("thread {} emitted {} before {} but the wrapped sink got them in the opposite order ({})", t, w[0], w[1], brief(del.clone())));
+                        break;
                     }
                 }
             }
             // exact FIFO: the order of the successful try_sends made inside emits (as reported by the
             // shim) is the order in which metrics were accepted; delivery must follow it
             let order = acceptance_order(end, &log);
-            if order.len() == del.len() && order.iter().all(|m| del.contains(m)) && order != del {
+            if order.len() == del.len() && order != del && order.iter().all(|m| posmap.contains_key(m)) {
                 let mut props = vec!["C08"];
                 if n_panics_scripted > 0 {
                     props.push("C11");
                 }
-                br(&mut out, &props, "fifo-order-broken", format!("metrics entered the queue in the order {:?} but were handed to the wrapped sink in the order {:?}", order, del));
+                br(&mut out, &props, "fifo-order-broken", format!("metrics entered the queue in the order {} but were handed to the wrapped sink in the order {}", brief(order.clone()), brief(del.clone())));
             }
             // real-time precedence from the event log: emit A returned before emit B was called
-            let spans = emit_spans(end, &log);
-            for (ma, _, ra) in &spans {
-                for (mb, cb, _) in &spans {
-                    if ra < cb && acc.contains(ma) && acc.contains(mb) && pos(ma) > pos(mb) {
-                        br(&mut out, &["C08"], "acceptance-order-broken", format!("{} was accepted before emit({}) even began, but was delivered after it ({:?})", ma, mb, del));
+            // (implied by the exact FIFO check; kept for small programs as an independent oracle)
+            if acc.len() <= 64 {
+                let spans = emit_spans(end, &log);
+                for (ma, _, ra) in &spans {
+                    for (mb, cb, _) in &spans {
+                        if ra < cb && posmap.contains_key(ma) && posmap.contains_key(mb) && pos(ma) > pos(mb) {
+                            br(&mut out, &["C08"], "acceptance-order-broken", format!("{} was accepted before emit({}) even began, but was delivered after it ({})", ma, mb, brief(del.clone())));
+                        }
                     }
                 }
             }
@@ -759,10 +850,10 @@ fn judge(scn: &QueueScn, end: &EndState, sh: &Shared) -> Verdict {
         })
         .collect();
     let summary = format!(
-        "accepted={:?} refused={} delivered={:?} sink_dropped={} live_handles={} unfinished={:?}",
-        accepted.iter().map(|a| a.1.clone()).collect::<Vec<_>>(),
+        "accepted={} refused={} delivered={} sink_dropped={} live_handles={} unfinished={:?}",
+        brief(accepted.iter().map(|a| a.1.clone()).collect::<Vec<_>>()),
         refused,
-        delivered.iter().map(|d| d.0.clone()).collect::<Vec<_>>(),
+        brief(delivered.iter().map(|d| d.0.clone()).collect::<Vec<_>>()),
         dropped,
         live,
         end.unfinished()
@@ -861,9 +952,10 @@ pub fn run(spec: &crate::Spec) -> Report {
     let mut rep = Report::new(&spec.raw);
     let scn = scenario(spec);
     let b = Bounds {
-        preemptions: spec.opt_usize("P").unwrap_or(usize::MAX),
+        preemptions: spec.opt_usize("D").or(spec.opt_usize("P")).unwrap_or(usize::MAX),
         deviations: 0,
         max_execs: spec.usize("max", 3_000_000) as u64,
+        delay: spec.opt_usize("D").is_some(),
     };
     explore::check(&mut rep, &scn, b, &spec.raw);
     rep.extra("preemption_bound_completed", if b.preemptions == usize::MAX { 99 } else { b.preemptions });
